@@ -707,6 +707,12 @@ func (e *MetaCDC) validCreateRequest(req *request.CreateRequest) error {
 	if req.RPCChannelInfo.Name != "" && req.RPCChannelInfo.Name != e.config.SourceConfig.ReplicateChan {
 		return servererror.NewClientError("the rpc channel is invalid, the channel name should be the same as the source config")
 	}
+	if req.RPCChannelInfo.Position != "" {
+		// check it here: Create decodes it only after the collection checkpoints have been persisted
+		if _, err := util.Base64DecodeMsgPosition(req.RPCChannelInfo.Position); err != nil {
+			return servererror.NewClientError("the rpc channel position is invalid, err: " + err.Error())
+		}
+	}
 
 	if verifSkipConnectProbe() {
 		return nil
